@@ -9,7 +9,12 @@
 
    Covered: identifiers, pp-numbers (with e+ E- p+ P-), every C11 punctuator
    except the digraphs (chibicc does not know them), string literals with the
-   prefixes u8 u U L, character constants with u U L, // and /* */ comments.
+   prefixes u8 u U L, character constants with u U L, // and /* */ comments,
+   and the last category of 6.4p1, "each non-white-space character that
+   cannot be one of the above": the backslash (the only such character of
+   the basic source character set besides a lone quote, which 6.4p3 leaves
+   undefined).  Texts are phase-3 texts: a backslash is never written
+   directly before a newline (that would be a phase-2 line splice).
    Transcribes what tokenize.c:tokenize() does at pp-token level (read_punct,
    read_ident, the pp-number loop, read_string_literal's end search); the one
    deliberate difference: `_` continues a pp-number here (6.4.8) and does not
@@ -45,6 +50,7 @@ Punct2 == {"->", "++", "--", "<<", ">>", "<=", ">=", "==", "!=", "&&", "||",
 Punct1 == {"[", "]", "(", ")", "{", "}", ".", "&", "*", "+", "-", "~", "!", "/", "%", "<", ">",
            "^", "|", "?", ":", ";", "=", ",", "#"}
 Punctuators == Punct1 \cup Punct2 \cup Punct3
+Other  == {"\\"}              \* 6.4p1: a single character that is no other kind of pp-token (tokenize.c: ispunct)
 
 (* each scanner returns the index just after the token that starts at i *)
 RECURSIVE IdEnd(_, _)
@@ -73,7 +79,7 @@ BlockEnd(s, i) == IF Ch(s, i) = "" THEN 0
 
 PunctEnd(s, i) == IF Sub(s, i, 3) \in Punct3 THEN i + 3
                   ELSE IF Sub(s, i, 2) \in Punct2 THEN i + 2
-                  ELSE IF Ch(s, i) \in Punct1 THEN i + 1
+                  ELSE IF Ch(s, i) \in Punct1 \cup Other THEN i + 1
                   ELSE 0
 
 (* length of the encoding prefix of a string literal / character constant at i, -1 if none starts here *)
